@@ -244,10 +244,10 @@ def t_fuse(rng, spec):
 TRANSFORMS = [t_sn_mva, t_relabel, t_split, t_parallel, t_swap, t_inert, t_fuse]
 
 
-def _pair(ctx, rng, k, spec=None, tname=None):
+def _pair(ctx, rng, k, spec=None, tname=None, forced=None):
     spec = spec or rand_spec(rng)
     tf = rng.choice(TRANSFORMS) if tname is None else [t for t in TRANSFORMS if t.__name__ == tname][0]
-    out = tf(rng, spec)
+    out = forced if forced is not None else tf(rng, spec)
     if out is None:
         ctx.count("transform_not_applicable")
         return
@@ -360,10 +360,22 @@ def _corr_tolerance(ctx, rng):
             ctx.disagreement("_check_for_convergence: impl %s model %s" % (i, m), d)
 
 
+def _corpus(ctx):
+    """witness of the recorded finding C05-tolerance-per-unit: sn_mva 1 -> 100 on a fixed generated net"""
+    import random
+    spec = rand_spec(random.Random(76))
+    spec["sn_mva"] = 1.0
+    s2 = copy.deepcopy(spec)
+    s2["sn_mva"] = 100.0
+    _pair(ctx, random.Random(0), 99, spec=spec, tname="t_sn_mva", forced=(s2, (lambda r1, r2: _same_all(r1, r2)), "sn_mva 1.0->100.0 (corpus)"))
+    ctx.count("corpus")
+
+
 def run(ctx):
     rng = ctx.rng
+    _corpus(ctx)
     nets = []
-    for k in range(ctx.n(160, 2500)):
+    for k in range(ctx.n(80, 2500)):
         n1 = _pair(ctx, rng, k)
         if n1 is not None and len(nets) < ctx.n(25, 200):
             nets.append(n1)
